@@ -306,6 +306,12 @@ func judgeRender(w *core.W, c *renderCase) {
 		}
 	}
 	hs = append(hs, final)
+	if c.Where != "app" && c.Depth%2 == 0 {
+		// an application-wide Renderer with other options runs first in the same chain; the Renderer nearer to
+		// the handler is the one that is mapped last, so its options apply
+		f.Use(flamego.Renderer(flamego.RenderOptions{Charset: "outer-charset", JSONIndent: "\t\t\t", XMLIndent: "\t\t\t"}))
+		w.Count("nested-renderers")
+	}
 	switch c.Where {
 	case "app":
 		f.Use(rnd)
@@ -427,7 +433,7 @@ func runC17(r *core.Run) {
 		}
 	})
 	r.GateCounter("status-sweep", 2000)
-	for _, k := range []string{"kind:json", "kind:xml", "kind:binary", "kind:text", "where:app", "where:group", "where:route", "custom-charset", "indented:json", "indented:xml", "overlapping-requests", "content-type-preset", "json-value-implementing-error"} {
+	for _, k := range []string{"kind:json", "kind:xml", "kind:binary", "kind:text", "where:app", "where:group", "where:route", "custom-charset", "indented:json", "indented:xml", "overlapping-requests", "content-type-preset", "json-value-implementing-error", "nested-renderers"} {
 		r.GateCounter(k, 500)
 	}
 	r.Gate("distinct_nontrivial", r.NonTrivialCount(), 5000)
